@@ -54,6 +54,10 @@ impl PHeader {
 impl PRawHeader {
     pub fn number(&self) -> PU64 { PU64(self.0.number) }
     pub fn transactions_root(&self) -> Byte32 { Byte32(self.0.tx_root) }
+    pub fn timestamp(&self) -> PU64 { PU64(self.0.timestamp) }
+    pub fn parent_hash(&self) -> Byte32 { Byte32(self.0.parent) }
+    pub fn extra_hash(&self) -> Byte32 { Byte32(self.0.extra_hash) }
+    pub fn compact_target(&self) -> PU32 { PU32(self.0.compact_target) }
 }
 #[derive(Clone, Copy, PartialEq, Eq, Default, Debug)]
 pub struct HeaderDigest { pub td: U256, pub end_number: u64, pub id: u8 }
